@@ -78,7 +78,7 @@ mod verif_replay_tls_coalesced_mod {
         loop {
             let now = std::time::Instant::now();
             if now >= deadline { break }
-            match rx.recv_timeout(deadline - now) { Ok(_) => n += 1, Err(_) => break }
+            match rx.recv_timeout(deadline - now) { Ok(_) => { n += 1; if n >= 2 { break } }, Err(_) => break }
         }
         sync.store(false, Ordering::Relaxed);
         let _ = done_tx.send(());
@@ -89,13 +89,13 @@ mod verif_replay_tls_coalesced_mod {
     #[test]
     fn verif_replay_tls_coalesced() {
         // control: two PDUs in two TLS records with a pause between them must both arrive; otherwise the replay itself does not work here and proves nothing
-        match run(vec![bitmap_pdu(1), bitmap_pdu(2)], Duration::from_millis(300), Duration::from_secs(3)) {
+        match run(vec![bitmap_pdu(1), bitmap_pdu(2)], Duration::from_millis(300), Duration::from_secs(6)) {
             Some(2) => (),
             other => { println!("replay infrastructure not usable here ({:?}): no verdict", other); return }
         }
         // the same two PDUs written as ONE TLS record, then silence: both are at the client, both must be dispatched
         let mut both = bitmap_pdu(1); both.extend_from_slice(&bitmap_pdu(2));
-        let n = run(vec![both], Duration::from_millis(0), Duration::from_secs(3)).unwrap_or(2);
-        assert_eq!(n, 2, "the server sent two PDUs in one TLS record and went silent: {} of 2 were dispatched within 3 s", n);
+        let n = run(vec![both], Duration::from_millis(0), Duration::from_secs(6)).unwrap_or(2);
+        assert_eq!(n, 2, "the server sent two PDUs in one TLS record and went silent: {} of 2 were dispatched within 6 s", n);
     }
 }
